@@ -5,7 +5,7 @@
 From Coq Require Import Reals List.
 From Rubato.Model Require Import Num Reals.
 From Rubato.Gen Require Import FastGen SincGen.
-From Rubato.Proofs Require Import PolyExact.
+From Rubato.Proofs Require Import PolyExact InterpErr InterpErrGen.
 Import ListNotations.
 Local Open Scope R_scope.
 
@@ -53,15 +53,71 @@ Example C08_example : @fast_interp_septic CR SR (1/2)
   (let p := poly7 1 2 3 4 5 6 7 8 in [p (-3); p (-2); p (-1); p 0; p 1; p 2; p 3; p 4]) = poly7 1 2 3 4 5 6 7 8 (1/2).
 Proof. apply septic_exact. Qed.
 
-(** Unproved part of the property, kept visible: the classical interpolation error
-    bound for sinusoids (stated, not proved here for degrees above 1). *)
+(** The classical interpolation error bound (Proofs/InterpErr.v: generalised Rolle on a chain
+    of derivatives; Proofs/InterpErrGen.v: the generated interpolators are the Lagrange form on
+    their nodes).  F 0 is the function, F (k+1) the derivative of F k; M bounds the (n+1)-th
+    derivative; x is the fractional position between the two central nodes. *)
+Theorem C08_linear_error_R : forall (F : nat -> R -> R) M, chain F -> forall x,
+  (forall xi, Rabs (F 2%nat xi) <= M) -> 0 <= x <= 1 ->
+  Rabs (@fast_interp_lin CR SR x [F 0%nat 0; F 0%nat 1] - F 0%nat x) <= M / INR (fact 2) * Rabs (x * (x - 1)).
+Proof. exact lin_error. Qed.
+Theorem C08_cubic_error_R : forall (F : nat -> R -> R) M, chain F -> forall x,
+  (forall xi, Rabs (F 4%nat xi) <= M) -> 0 <= x <= 1 ->
+  Rabs (@fast_interp_cubic CR SR x [F 0%nat (-1); F 0%nat 0; F 0%nat 1; F 0%nat 2] - F 0%nat x)
+  <= M / INR (fact 4) * Rabs ((x + 1) * x * (x - 1) * (x - 2)).
+Proof. exact cubic_error. Qed.
+Theorem C08_quintic_error_R : forall (F : nat -> R -> R) M, chain F -> forall x,
+  (forall xi, Rabs (F 6%nat xi) <= M) -> 0 <= x <= 1 ->
+  Rabs (@fast_interp_quintic CR SR x [F 0%nat (-2); F 0%nat (-1); F 0%nat 0; F 0%nat 1; F 0%nat 2; F 0%nat 3] - F 0%nat x)
+  <= M / INR (fact 6) * Rabs ((x + 2) * (x + 1) * x * (x - 1) * (x - 2) * (x - 3)).
+Proof. exact quintic_error. Qed.
+Theorem C08_septic_error_R : forall (F : nat -> R -> R) M, chain F -> forall x,
+  (forall xi, Rabs (F 8%nat xi) <= M) -> 0 <= x <= 1 ->
+  Rabs (@fast_interp_septic CR SR x [F 0%nat (-3); F 0%nat (-2); F 0%nat (-1); F 0%nat 0; F 0%nat 1; F 0%nat 2; F 0%nat 3; F 0%nat 4] - F 0%nat x)
+  <= M / INR (fact 8) * Rabs ((x + 3) * (x + 2) * (x + 1) * x * (x - 1) * (x - 2) * (x - 3) * (x - 4)).
+Proof. exact septic_error. Qed.
+
+(** sinusoids  A sin(w t + p)  (w = 2 pi f radians per input sample), any amplitude and phase *)
+Theorem C08_linear_sine_R : forall A w p x, 0 <= w -> 0 <= x <= 1 ->
+  let f := fun t => A * sin (w * t + p) in
+  Rabs (@fast_interp_lin CR SR x [f 0; f 1] - f x) <= Rabs A * w ^ 2 * (1 / 8).
+Proof. exact lin_sine. Qed.
+Theorem C08_cubic_sine_R : forall A w p x, 0 <= w -> 0 <= x <= 1 ->
+  let f := fun t => A * sin (w * t + p) in
+  Rabs (@fast_interp_cubic CR SR x [f (-1); f 0; f 1; f 2] - f x) <= Rabs A * w ^ 4 * (3 / 128).
+Proof. exact cubic_sine. Qed.
+Theorem C08_quintic_sine_R : forall A w p x, 0 <= w -> 0 <= x <= 1 ->
+  let f := fun t => A * sin (w * t + p) in
+  Rabs (@fast_interp_quintic CR SR x [f (-2); f (-1); f 0; f 1; f 2; f 3] - f x) <= Rabs A * w ^ 6 * (5 / 1024).
+Proof. exact quintic_sine. Qed.
+Theorem C08_septic_sine_R : forall A w p x, 0 <= w -> 0 <= x <= 1 ->
+  let f := fun t => A * sin (w * t + p) in
+  Rabs (@fast_interp_septic CR SR x [f (-3); f (-2); f (-1); f 0; f 1; f 2; f 3; f 4] - f x) <= Rabs A * w ^ 8 * (35 / 32768).
+Proof. exact septic_sine. Qed.
+
+(** the statement kept visible as "unproved" since the design, now a theorem *)
 Definition C08_sine_full : Prop :=
   forall (f : R) (x : R), 0 <= f <= 1/2 -> 0 <= x < 1 ->
     Rabs (@fast_interp_cubic CR SR x (map (fun n => sin (2 * PI * f * n)) [-1; 0; 1; 2]) - sin (2 * PI * f * x))
     <= (2 * PI * f) ^ 4 * (3 / 128).
+Theorem C08_sine_full_proved : C08_sine_full.
+Proof. exact cubic_sine_unit. Qed.
+
+(* non-vacuity: sin itself is a chain (amplitude 1, w = 1, phase 0) *)
+Theorem C08_chain_example : chain (sinF 1 1 0) /\ forall s, sinF 1 1 0 0%nat s = 1 * sin (1 * s + 0).
+Proof. split; [apply sinF_chain|intros s; apply sinF_0]. Qed.
 
 Print Assumptions C08_septic_exact_R.
 Print Assumptions C08_quintic_exact_R.
 Print Assumptions C08_cubic_exact_R.
 Print Assumptions C08_linear_exact_R.
 Print Assumptions C08_septic_linear_R.
+Print Assumptions C08_linear_error_R.
+Print Assumptions C08_cubic_error_R.
+Print Assumptions C08_quintic_error_R.
+Print Assumptions C08_septic_error_R.
+Print Assumptions C08_linear_sine_R.
+Print Assumptions C08_cubic_sine_R.
+Print Assumptions C08_quintic_sine_R.
+Print Assumptions C08_septic_sine_R.
+Print Assumptions C08_sine_full_proved.
